@@ -366,7 +366,7 @@ func (s *Spec) fillDefaults(r *fw.Rand, c *Counter, setPct int, v reflect.Value)
 		switch f.Kind {
 		case KLeaf, KSkipDash:
 			if r.Chance(setPct) {
-				fv.Set(f.Leaf.Gen(r, c.Next()))
+				fv.Set(GenLeafValue(r, c, f.Leaf))
 			}
 		case KSkipUnexported:
 			// cannot be set through reflect; stays zero
@@ -391,12 +391,26 @@ type Layer struct {
 	Vals map[*LeafRef]reflect.Value
 }
 
+// GenLeafValue draws a value for a leaf; maps and slices are occasionally
+// empty but non-nil (a "set" value with nothing in it).
+func GenLeafValue(r *fw.Rand, c *Counter, lf *Leaf) reflect.Value {
+	if lf.Caps&CapTextU == 0 && r.Chance(6) {
+		switch lf.Type.Kind() {
+		case reflect.Slice:
+			return reflect.MakeSlice(lf.Type, 0, r.Intn(3))
+		case reflect.Map:
+			return reflect.MakeMap(lf.Type)
+		}
+	}
+	return lf.Gen(r, c.Next())
+}
+
 // RandomLayer sets each leaf with probability setPct.
 func RandomLayer(r *fw.Rand, c *Counter, leaves []*LeafRef, setPct int) *Layer {
 	l := &Layer{Vals: map[*LeafRef]reflect.Value{}}
 	for _, lr := range leaves {
 		if r.Chance(setPct) {
-			l.Vals[lr] = lr.Leaf().Leaf.Gen(r, c.Next())
+			l.Vals[lr] = GenLeafValue(r, c, lr.Leaf().Leaf)
 		}
 	}
 	return l
